@@ -877,7 +877,8 @@ pub fn c09(tier: &str) -> ! {
         run_sched(&mut rep, "flush-into-the-key-gap-of-a-running-compaction/p2d4", &c09_gap_programs(), (2, 4), 16, false, 2, Duration::from_secs(900), is_c09_clause);
     } else {
         run_sched(&mut rep, "liveness/p1d3", &c09_programs(), (1, 3), 4, false, 1, Duration::from_secs(13), is_c09_clause);
-        run_sched(&mut rep, "liveness-under-fault/p1d3", &c09_fault_programs(), (1, 3), 4, false, 1, Duration::from_secs(8), is_c09_clause);
+        let fault_progs: Vec<_> = c09_fault_programs().into_iter().filter(|p| !p.name.contains("wal-write-2-of-rotating") && !p.name.contains("wal-write-3-of-rotating")).collect();
+        run_sched(&mut rep, "liveness-under-fault/p1d3", &fault_progs, (1, 3), 4, false, 1, Duration::from_secs(14), is_c09_clause);
         run_sched(&mut rep, "iterator-creation-vs-writer/p2d4", &c09_sharp_programs(), (2, 4), 8, false, 1, Duration::from_secs(6), is_c09_clause);
         run_sched(&mut rep, "flush-into-the-key-gap-of-a-running-compaction/p1d2", &c09_gap_programs(), (1, 2), 8, false, 1, Duration::from_secs(4), is_c09_clause);
     }
